@@ -40,6 +40,12 @@ pub enum Cause {
     RTurn,
     /// the writer reads its own message back
     RReflect,
+    /// a set_psk call that fails (wrong key length / slot out of range) before the valid write
+    BadSetPsk(u8),
+    /// after the last handshake message, before conversion: a further write (must fail, no trace)
+    AfterFinishWrite,
+    /// after the last handshake message, before conversion: a further read (must fail, no trace)
+    AfterFinishRead,
     RBig,
     // transport phase (idx == number of handshake messages); bool = initiator is the actor
     TWBuf(bool, usize),
@@ -203,6 +209,14 @@ fn run_session(spec: &SessionSpec, faults: &[Fault], plen: usize) -> Result<Outc
                         let mut buf = vec![0u8; 65535];
                         (false, r.write_message(&payload, &mut buf))
                     },
+                    Cause::BadSetPsk(kind) => {
+                        let r0 = match kind % 3 {
+                            0 => w.set_psk(0, &[1u8; 31]),
+                            1 => w.set_psk(10, &[1u8; 32]),
+                            _ => w.set_psk(200, &[]),
+                        };
+                        (true, r0.map(|_| 0usize))
+                    },
                     Cause::RTurn => {
                         // the party whose turn it is to write tries to read instead
                         let m = expand(spec.key_seed, 88 + rep as u64, 200);
@@ -294,11 +308,69 @@ fn run_session(spec: &SessionSpec, faults: &[Fault], plen: usize) -> Result<Outc
         out.t.hashes.push(hi.get_handshake_hash().to_vec());
         out.t.hashes.push(hr.get_handshake_hash().to_vec());
     }
+    // faults on the finished handshake objects, before conversion
+    for f in faults.iter().filter(|f| f.idx == nm) {
+        for _ in 0..f.reps.max(1) {
+            let res: Option<Result<usize, snow::Error>> = match &f.cause {
+                Cause::AfterFinishWrite => {
+                    let mut buf = vec![0u8; 200];
+                    let a = hi.write_message(b"late", &mut buf);
+                    let b = hr.write_message(b"late", &mut buf);
+                    Some(a.and(b))
+                },
+                Cause::AfterFinishRead => {
+                    let mut buf = vec![0u8; 200];
+                    let m = out.t.msgs.last().cloned().unwrap_or_default();
+                    let a = hi.read_message(&m, &mut buf);
+                    let b = hr.read_message(&m, &mut buf);
+                    Some(a.and(b))
+                },
+                _ => None,
+            };
+            if let Some(res) = res {
+                if res.is_ok() {
+                    out.not_a_failure = true;
+                    return Ok(out);
+                }
+                out.failed_calls += 1;
+            }
+        }
+    }
+    out.t.hashes.push(hi.get_handshake_hash().to_vec());
+    out.t.hashes.push(hr.get_handshake_hash().to_vec());
     // transport phase
     let oneway = spec.pattern().is_oneway();
+    if spec.key_seed % 3 == 0 {
+        // stateless ending: the first messages at a few nonces must be identical too
+        let si = hi.into_stateless_transport_mode().map_err(|x| Fail::new(format!("{name}: conversion: {}", e(&x))))?;
+        let sr = hr.into_stateless_transport_mode().map_err(|x| Fail::new(format!("{name}: conversion: {}", e(&x))))?;
+        for n in [0u64, 5, 1 << 40] {
+            for i_sends in [true, false] {
+                if oneway && !i_sends {
+                    continue;
+                }
+                let payload = spec.payload(300 + i_sends as usize, plen + 2);
+                let (w, r) = if i_sends { (&si, &sr) } else { (&sr, &si) };
+                let msg = sl_write(w, n, &payload, payload.len() + 16).map_err(|x| Fail::new(format!("{name}: stateless write after the injected failure(s) {:?} failed: {}", faults, e(&x))))?;
+                let got = sl_read(r, n, &msg, payload.len()).map_err(|x| Fail::new(format!("{name}: genuine stateless message rejected after the injected failure(s) {:?}: {}", faults, e(&x))))?;
+                if got != payload {
+                    return Err(Fail::new(format!("{name}: stateless payload differs after {faults:?}")));
+                }
+                out.t.transport.push(msg);
+            }
+        }
+        return Ok(out);
+    }
     let mut ti = hi.into_transport_mode().map_err(|x| Fail::new(format!("{name}: conversion: {}", e(&x))))?;
     let mut tr = hr.into_transport_mode().map_err(|x| Fail::new(format!("{name}: conversion: {}", e(&x))))?;
-    for round in 0..2 {
+    for round in 0..4 {
+        if round == 2 {
+            // a synchronised rekey of both directions: traces may only show in the new keys
+            ti.rekey_outgoing();
+            tr.rekey_incoming();
+            tr.rekey_outgoing();
+            ti.rekey_incoming();
+        }
         for i_sends in [true, false] {
             if oneway && !i_sends {
                 continue;
@@ -472,6 +544,16 @@ fn snapshot_check(spec: &SessionSpec, f: &Fault, plen: usize) -> Result<bool, Fa
             let res = r.write_message(&payload, &mut buf);
             check("out-of-turn write", &before, r, &res)
         },
+        Cause::BadSetPsk(kind) => {
+            let before = snap(w);
+            let r0 = match kind % 3 {
+                0 => w.set_psk(0, &[1u8; 31]),
+                1 => w.set_psk(10, &[1u8; 32]),
+                _ => w.set_psk(200, &[]),
+            };
+            let res = r0.map(|_| 0usize);
+            check("set_psk", &before, w, &res)
+        },
         Cause::RTurn => {
             let before = snap(w);
             let m = expand(spec.key_seed, 88, 200);
@@ -637,6 +719,7 @@ pub fn faults_for(spec: &SessionSpec, plen: usize) -> Vec<Fault> {
         out.push(Fault { idx, cause: Cause::RPbuf(plen.saturating_sub(1)), reps: 2 });
         out.push(Fault { idx, cause: Cause::RTurn, reps: 1 });
         out.push(Fault { idx, cause: Cause::RReflect, reps: 1 });
+        out.push(Fault { idx, cause: Cause::BadSetPsk((idx % 3) as u8), reps: 1 + (idx % 2) as u8 });
         out.push(Fault { idx, cause: Cause::RBig, reps: 1 });
     }
     for actor_i in [true, false] {
@@ -659,6 +742,8 @@ pub fn faults_for(spec: &SessionSpec, plen: usize) -> Vec<Fault> {
         out.push(Fault { idx: nm, cause: Cause::TRPbuf(actor_i, plen.saturating_sub(1)), reps: 1 });
         out.push(Fault { idx: nm, cause: Cause::TRBig(actor_i), reps: 1 });
     }
+    out.push(Fault { idx: nm, cause: Cause::AfterFinishWrite, reps: 1 });
+    out.push(Fault { idx: nm, cause: Cause::AfterFinishRead, reps: 2 });
     out.push(Fault { idx: nm, cause: Cause::TOneWayRead, reps: 1 });
     out.push(Fault { idx: nm, cause: Cause::TOneWayWrite, reps: 1 });
     out
